@@ -29,9 +29,9 @@ CONSTANTS
  Policies <- U_Policies
  Variants <- U_Variants
  CbWeight <- U_CbWeight
- H0 = 41
- SubsidyInterval = 150
- HardDiff = TRUE
+ H0 = 2
+ SubsidyInterval = 4
+ HardDiff = FALSE
  CommitWeight = 224
 INIT Init
 NEXT Next
